@@ -257,9 +257,9 @@ static void check_generator(const KnotVC &c, vf::Obs &o) {
 
 // ------------------------------------------------------- linearCombination
 struct LinCC {
-  i64 nc = 0, ns = 0, overload = 0, order = 0;
+  i64 nc = 0, ns = 0, overload = 0, order = 0, members = 0;  // members: 0 ordinary, 1 all empty, 2 all point-like, 3 first empty, 4 last empty, 5 mixed empty/point-like
   template <class A>
-  void io(A &a) { a("nc", nc); a("ns", ns); a("overload", overload); a("order", order); }
+  void io(A &a) { a("nc", nc); a("ns", ns); a("overload", overload); a("order", order); a("members", members); }
 };
 static void check_lincomb(const LinCC &c, vf::Obs &o) {
   Grd g = simple_grid(5);
@@ -272,6 +272,10 @@ static void check_lincomb(const LinCC &c, vf::Obs &o) {
     std::vector<bspline::Spline<double, ord>> sp;
     for (size_t i = 0; i < ns; i++) {
       size_t s = i % 3, e = s + 2 + (i % 2);
+      bool empty = c.members == 1 || (c.members == 3 && i == 0) || (c.members == 4 && i + 1 == ns) || (c.members == 5 && i % 2 == 0);
+      bool point = c.members == 2 || (c.members == 5 && i % 2 == 1);
+      if (empty) { sp.emplace_back(g); continue; }                     // interval-free members are valid members
+      if (point) { sp.emplace_back(Sup(g, s + 1, s + 2), std::vector<std::array<double, ord + 1>>{}); continue; }
       std::vector<std::array<double, ord + 1>> co(e - s - 1);
       for (auto &a : co) a.fill(1.0 + (double)i);
       sp.emplace_back(Sup(g, s, e), co);
@@ -285,8 +289,9 @@ static void check_lincomb(const LinCC &c, vf::Obs &o) {
     }
   });
   o.cls(valid ? "valid" : "invalid");
+  o.cls("members:" + std::to_string(c.members));
   o.nt(true);
-  EXPECT_IFF(o, valid, res, what, "linearCombination(" << nc << " coefficients, " << ns << " splines)");
+  EXPECT_IFF(o, valid, res, what, "linearCombination(" << nc << " coefficients, " << ns << " splines, member kind " << c.members << ")");
 }
 
 // ----------------------------------------------------------- interpolation
@@ -401,7 +406,7 @@ int main(int argc, char **argv) {
   vf::add_sub<KnotVC>("generator", 2500, rc::gen::exec([] {
     KnotVC c; c.p = pick(0, 4); c.code = gen_codes((int)c.p + 4, true); c.route = pick(0, 2); c.gridmut = chance(50) ? 0 : pick(1, 4);
     return c; }), check_generator);
-  vf::add_sub<LinCC>("linear-combination", 300, rc::gen::exec([] { LinCC c; c.nc = pick(0, 4); c.ns = pick(0, 4); c.overload = pick(0, 2); c.order = pick(0, 2); return c; }), check_lincomb);
+  vf::add_sub<LinCC>("linear-combination", 300, rc::gen::exec([] { LinCC c; c.nc = pick(0, 4); c.ns = pick(0, 4); if (chance(40)) c.nc = c.ns; c.overload = pick(0, 2); c.order = pick(0, 2); c.members = chance(50) ? 0 : pick(1, 5); return c; }), check_lincomb);
   vf::add_sub<IntC>("interpolation", 1200, rc::gen::exec([] {
     IntC c; c.n = pick(2, 6); c.order = pick(1, 4); c.solver = chance(70) ? 0 : 1;
     c.ws = pick(0, c.n - 1); c.we = pick(c.ws, std::min<i64>(c.n, c.ws + 5));
